@@ -1,6 +1,9 @@
 package harness
 
 import (
+	"github.com/gorilla/websocket"
+	"encoding/json"
+	"net/url"
 	"io"
 	"bufio"
 	"bytes"
@@ -281,14 +284,61 @@ type c04Fail struct {
 	iface, key, keyStr, outcome, detail string
 }
 
+var c04MonPort = 0
+
+// c04Monitor opens a WebSocket monitor on the real router (over a simulated
+// connection, upgrade shim of C15), collects what the server sends until it
+// has been silent for two simulated seconds and returns the subjects of the
+// stored-message events.
+func c04Monitor(c *Ctx, path string) (subjects []string, err error) {
+	c04MonPort++
+	cli, srv := simnet.Of(c.Sim).Pipe(fmt.Sprintf("192.0.2.9:%d", 20000+c04MonPort%20000), "127.0.0.1:9000")
+	simrt.Go("ws-server", func() { serveUpgrade(c, srv) })
+	u, perr := url.Parse("ws://" + webHost + path)
+	if perr != nil {
+		return nil, perr
+	}
+	wc, _, derr := websocket.NewClient(cli, u, nil, 1024, 1024)
+	if derr != nil {
+		_ = cli.Close()
+		return nil, derr
+	}
+	defer cli.Close()
+	for {
+		_ = wc.SetReadDeadline(time.Now().Add(2 * time.Second))
+		_, data, rerr := wc.ReadMessage()
+		if rerr != nil {
+			return subjects, nil
+		}
+		var h struct {
+			Subject string `json:"subject"`
+			Variant string `json:"variant"`
+			Header  *struct {
+				Subject string `json:"subject"`
+			} `json:"header"`
+		}
+		if json.Unmarshal(data, &h) != nil {
+			continue
+		}
+		if h.Header != nil {
+			if h.Variant == "message-stored" {
+				subjects = append(subjects, h.Header.Subject)
+			}
+		} else if h.Subject != "" {
+			subjects = append(subjects, h.Subject)
+		}
+	}
+}
+
 type c04Run struct {
+	wsToken string
 	c   *Ctx
 	k   *c04Case
 	web *webEnv
 	cl  *client.Client
 }
 
-var c04HTTPIfaces = []string{"rest-list", "rest-get", "rest-source", "ui-message", "ui-source", "client-list", "client-get", "client-source"}
+var c04HTTPIfaces = []string{"rest-list", "rest-get", "rest-source", "ui-message", "ui-source", "client-list", "client-get", "client-source", "ws1-monitor", "ws2-monitor"}
 
 // lookup asks one interface for the token by key.  outcome: ok | not-found |
 // 5xx | panic | <code>; reported = the mailbox name the server put in its reply.
@@ -315,6 +365,30 @@ func (r *c04Run) lookup(iface, key, id, token string) (outcome, reported, detail
 		return "client-error"
 	}
 	switch iface {
+	case "ws1-monitor", "ws2-monitor":
+		// the per-mailbox WebSocket monitor: a client subscribing under this key is
+		// played the retained history of that mailbox first
+		if r.wsToken == "" {
+			r.wsToken = token
+		}
+		if token != r.wsToken {
+			return "ok", "", "" // monitors are opened for the first message of a run only (cost)
+		}
+		ver := 1
+		if iface == "ws2-monitor" {
+			ver = 2
+		}
+		path := e.prefix(fmt.Sprintf("/api/v%d/monitor/messages/%s", ver, ek))
+		subjects, err := c04Monitor(r.c, path)
+		if err != nil {
+			return "not-found", "", fmt.Sprintf("GET %s (WebSocket): %v", path, err)
+		}
+		for _, sj := range subjects {
+			if sj == token {
+				return "ok", "", ""
+			}
+		}
+		return "not-found", "", fmt.Sprintf("WebSocket monitor %s replayed %d stored messages, none is %s", path, len(subjects), token)
 	case "rest-list":
 		resp := e.request("GET", e.apiPath(ek), nil)
 		if s := status(resp); s != "" {
@@ -538,8 +612,13 @@ func runC04(c *Ctx, cs Case) {
 		}
 		if rp := cl.cmd("RCPT TO:<" + s.rcpt + ">"); !rp.ok2xx() {
 			c.Stat("probe.rcpt_refused", 1)
-			cl.cmd("RSET")
-			return nil
+			// a client that simply tries the same recipient again; if the server now
+			// accepts it the delivery goes on and the naming checks below judge the result
+			if rp2 := cl.cmd("RCPT TO:<" + s.rcpt + ">"); !rp2.ok2xx() {
+				cl.cmd("RSET")
+				return nil
+			}
+			c.Stat("probe.rcpt_accepted_on_second_attempt", 1)
 		}
 		if rp := cl.cmd("DATA"); rp.Code != 354 {
 			c.Failf("data-refused", "DATA after an accepted RCPT answered %s", rp)
